@@ -784,6 +784,37 @@ func checkWorkersAccountedFor(c *Ctx, rule string) {
 				continue
 			}
 			n++
+			// the goroutine that runs it: f itself, or the function that calls f through the function value it was
+			// handed (a starter helper that takes the worker loop as a parameter)
+			for hop := 0; hop < 2; hop++ {
+				launched := false
+				if f.Parent() != nil {
+					eachInstr(f.Parent(), func(in ssa.Instruction) {
+						if g, ok := in.(*ssa.Go); ok {
+							if mc, ok := g.Call.Value.(*ssa.MakeClosure); ok && mc.Fn == ssa.Value(f) {
+								launched = true
+							}
+						}
+					})
+				}
+				if launched {
+					break
+				}
+				var caller *ssa.Function
+				if node := p.VTA().Nodes[f]; node != nil {
+					for _, e := range node.In {
+						for _, g := range all {
+							if e.Caller.Func == g && g != f {
+								caller = g
+							}
+						}
+					}
+				}
+				if caller == nil {
+					break
+				}
+				f = caller
+			}
 			// f runs as a goroutine
 			var goIn ssa.Instruction
 			if f.Parent() != nil {
